@@ -522,8 +522,8 @@ def run_c25(tier):
     devs = tla_strset(REPL_DEVS)
     # (NI, TfLong, MaxRecs, MaxSets, MaxTGs, MaxWrites, mode, replay count, simulate count)
     if quick:
-        plan = [(2, True, 1, 3, 3, 3, "mc", 900, 0), (2, False, 1, 3, 3, 3, "mc", 250, 0),
-                (2, True, 2, 3, 3, 6, "sim", None, 200), (2, False, 2, 3, 3, 6, "sim", None, 80)]
+        plan = [(2, True, 1, 3, 3, 3, "mc", 600, 0), (2, False, 1, 3, 3, 3, "mc", 150, 0),
+                (2, True, 2, 3, 3, 6, "sim", None, 150), (2, False, 2, 3, 3, 6, "sim", None, 60)]
     else:
         plan = [(2, True, 1, 3, 3, 3, "mc", None, 0), (2, False, 1, 3, 3, 3, "mc", None, 0), (2, True, 1, 3, 3, 4, "mc", 20000, 0),
                 (1, True, 2, 3, 3, 3, "mc", 8000, 0), (2, True, 2, 3, 3, 7, "sim", None, 6000), (2, False, 2, 3, 3, 7, "sim", None, 2000)]
@@ -603,8 +603,10 @@ def run_c25(tier):
             bad_w = [x for x in g.get("results", []) if x is None or x.get("err") or x.get("panic")]
             if bad_w:
                 raise Undecided("a write on the master failed in %s group %d: %s" % (cid, k, bad_w))
-            if sy.get("tgs") != [c.shape(st["tg"])]:
+            if sy.get("tgs") and sy.get("tgs") != [c.shape(st["tg"])]:
+                # the requests were not flushed as the one group the model asked for: nothing can be concluded
                 raise Undecided("MODEL-DRIFT: the master sent groups %s, the model expects %s" % (sy.get("tgs"), [c.shape(st["tg"])]))
+            unsent = not sy.get("tgs")       # nothing was handed to the ReplicationSender for this flush
             groups += 1
             mixed += 1 if len(set(ws["b"] for ws in st["tg"])) > 1 else 0
             multi += 1 if len(st["tg"]) > 1 else 0
@@ -633,8 +635,9 @@ def run_c25(tier):
                         res.violation("deviation %s observed but not listed as known: query %s after group %d: master %s, replica %s" % (
                             d, key, k + 1, m, r), replay)
                 continue
-            res.violation("after transaction group %d (%s) the query of %s returns %s on the master and %s on the replica (replay errors: %s)" % (
-                k + 1, [x["tg"] for x in beh[:k + 1]], key, str(m)[:500], str(r)[:500], rerr), replay)
+            res.violation("after transaction group %d (%s) the query of %s returns %s on the master and %s on the replica (replay errors: %s%s)" % (
+                k + 1, [x["tg"] for x in beh[:k + 1]], key, str(m)[:500], str(r)[:500], rerr,
+                "; the master handed no group to its ReplicationSender for this flush" if unsent else ""), replay)
             break
         res.sample({"concretisation": c.describe(), "groups": [s["tg"] for s in beh]}, limit=3)
     res.cov["groups_replayed"] = groups
